@@ -48,6 +48,7 @@ type run struct {
 	stuck      bool
 	inTx       bool
 	stalled    map[*simmongo.Pending]int // database commands the simulated database is slow to answer
+	verHist    map[string][]string       // scenario runs: versions seen in each user document, in order
 	storm      map[string]bool           // clients that re-send a refused request without end: their requests are no longer delivered
 	evOwners   map[int][]string          // event index -> owners (calls) of its exchange
 	cmdNames   map[string][]string       // owner -> names of its database commands in order
@@ -346,6 +347,9 @@ func (r *run) items(f *focus) []item {
 		}
 	}
 	for _, h := range w.br.heldList() {
+		if r.lagging[h.owner] && !f.lag {
+			continue
+		}
 		if f.all || f.mqtt || f.owners[h.owner] {
 			out = append(out, item{kind: "pub", key: h.key(), h: h})
 		}
@@ -638,6 +642,12 @@ func (r *run) pump(f *focus, g *kernel.Rng, faults []MongoFault, stopAnswered bo
 			for _, it := range its {
 				if it.kind == "cmd" && r.ownerAnswered(it.p.Owner) && r.bgDone[it.p.Owner] >= r.lagAfter {
 					r.lagging[it.p.Owner] = true
+					continue
+				}
+				if it.kind == "pub" && r.ownerAnswered(it.h.owner) && r.lagAfter == 0 {
+					// the background goroutine is left behind before it has done anything: its notification
+					// is not out and it has not asked for the snapshot lock yet
+					r.lagging[it.h.owner] = true
 					continue
 				}
 				keep = append(keep, it)
